@@ -30,6 +30,7 @@ import (
 	"os/exec"
 	"path/filepath"
 	"regexp"
+	"runtime"
 	"strconv"
 	"strings"
 	"syscall"
@@ -297,6 +298,10 @@ type ack struct {
 // store call has returned.
 func childMain(opsPath, db string) {
 	noIntern = true
+	// bbolt does its I/O in the calling goroutine: pinned to one thread, the
+	// store's write/pwrite64/fdatasync calls are numbered the same way in every
+	// run, so strace's per-thread when=k sweeps them one by one
+	runtime.LockOSThread()
 	f, err := os.Open(opsPath)
 	if err != nil {
 		os.Exit(3)
@@ -334,7 +339,7 @@ type childResult struct {
 	openErr  string // the child could not open the store
 	killed   bool
 	elapsed  time.Duration
-	perTid   map[string]int // calibration: traced syscalls per thread
+	perTid   map[string]int // calibration: traced system calls per (thread, call name)
 }
 
 var straceOK = -1
@@ -442,9 +447,14 @@ func runChild(c *reg.Ctx, ops []op, db string, km killMode, calibrate bool) chil
 			sc.Buffer(make([]byte, 1<<20), 1<<20)
 			for sc.Scan() {
 				l := sc.Text()
+				// strace keeps one injection counter per thread and per system call:
+				// count lines per (thread, call name)
 				if i := strings.IndexByte(l, ' '); i > 0 && !strings.Contains(l, "resumed>") &&
 					!strings.Contains(l, "+++") && !strings.Contains(l, "---") {
-					res.perTid[l[:i]]++
+					rest := strings.TrimLeft(l[i:], " ")
+					if j := strings.IndexByte(rest, '('); j > 0 {
+						res.perTid[l[:i]+" "+rest[:j]]++
+					}
 				}
 			}
 			f.Close()
@@ -566,7 +576,7 @@ type desc struct {
 type plan struct {
 	seq0  uint64
 	ops   []op
-	kmax  int // largest per-thread count of traced system calls in an unkilled run
+	kmax  int // largest count of one traced system call in one thread of an unkilled run
 	total time.Duration
 }
 
